@@ -222,6 +222,44 @@ impl<'a> Dfs<'a> {
     }
 }
 
+/// The C09 oracle for an arbitrary text (any length): R-lex, then the recursive-descent reference (which the
+/// exploration cross-checks against Earley on every explored sequence) says which token, if any, is the
+/// first that cannot continue a valid file. Texts that do not lex are C08's.
+pub fn check_any_text(src: &str, acc: &mut Acc) -> Option<Finding> {
+    let toks = rlex(src).ok()?;
+    let spans: Vec<(usize, usize)> = toks.iter().map(|t| (t.start, t.end)).collect();
+    let expect = match crate::reffront::parse_tokens(src, &toks) {
+        Ok(_) => Expect::PassesFrontEnd,
+        Err(None) => Expect::EndOfInput,
+        Err(Some(i)) => Expect::BadToken(i),
+    };
+    acc.inc("texts given to generate");
+    acc.inc("scale probes (short texts behind a large prefix)");
+    let (what, e, o) = check_text(src, &spans, &expect)?;
+    let shown: String = if src.len() > 400 { format!("{} ... ({} bytes) ... {}", src.chars().take(60).collect::<String>(), src.len(), src.chars().rev().take(120).collect::<String>().chars().rev().collect::<String>()) } else { src.to_string() };
+    let what = if src.len() > 400 { format!("front end disagrees with the Kiki grammar on a text of {} bytes ({shown:?}): expected {}, got {}", src.len(), e, o) } else { what };
+    Some(Finding::new("front_end_text", json!({"source": src}), what, e, o))
+}
+
+/// Prefixes that move a short text beyond byte 255 / 65535, beyond token 255 / 65535, beyond line 255 / 65535.
+pub fn scale_prefixes() -> Vec<String> {
+    let mut v = vec![];
+    for n in [255usize, 256, 65_535, 65_536] {
+        v.push(" ".repeat(n));
+    }
+    v.push("// c\n".repeat(60));
+    v.push("// c\n".repeat(14_000));
+    v.push("\n".repeat(70_000));
+    for k in [130usize, 33_000] {
+        v.push((0..k).map(|i| format!("struct Q{i}\n")).collect());
+    }
+    for n in [255usize, 256, 65_536] {
+        v.push(format!("struct {}\n", "A".repeat(n)));
+        v.push(format!("#[{}]\n", "a".repeat(n)));
+    }
+    v
+}
+
 pub const UNIT_LEN: usize = 6;
 
 /// The viable prefixes of exactly UNIT_LEN tokens (units of parallel work), in DFS order.
@@ -367,6 +405,54 @@ pub fn run(ctx: &Ctx) -> Outcome {
     if let Some(e) = acc.self_check_errors.iter().find(|e| e.starts_with("reference self-check")) {
         machinery_error(format!("C09: {e}"));
     }
+    // scale: every short text of the exploration (the sequential top part, depth < UNIT_LEN) behind every large prefix
+    {
+        let mut bases: Vec<String> = vec![];
+        for_each_text(4, None, &mut |s| bases.push(s.to_string()));
+        bases.sort();
+        bases.dedup();
+        let prefixes = scale_prefixes();
+        // (generate recurses once per declaration: 33 000 declarations need more than the 2 MiB of a default
+        // worker stack - stack depth is C07's subject, not C09's, so these probes run on 512 MiB stacks)
+        let pool = rayon::ThreadPoolBuilder::new().stack_size(512 << 20).build().unwrap_or_else(|e| machinery_error(format!("C09: cannot build a thread pool: {e}")));
+        let accs: Vec<Acc> = pool.install(|| {
+            bases
+                .par_iter()
+                .map(|b| {
+                    let mut a = Acc::default();
+                    for p in &prefixes {
+                        if let Some(f) = check_any_text(&format!("{p}{b}"), &mut a) {
+                            a.finding(f);
+                        }
+                    }
+                    // one token of variable length made huge (its own length crosses 2^8 / 2^16)
+                    if let Ok(toks) = rlex(b) {
+                        if toks.len() <= 4 {
+                            for t in &toks {
+                                for n in [255usize, 256, 257, 65_535, 65_536, 65_537] {
+                                    let big = match t.kind {
+                                        Kind::Ident => format!("{}{}", &b[t.start..t.start + 1], "a".repeat(n - 1)),
+                                        Kind::TerminalIdent => format!("${}{}", &b[t.start + 1..t.start + 2], "a".repeat(n - 2)),
+                                        Kind::Attr => format!("#[{}]", "a".repeat(n - 3)),
+                                        _ => continue,
+                                    };
+                                    let text = format!("{}{}{}", &b[..t.start], big, &b[t.end..]);
+                                    if let Some(f) = check_any_text(&text, &mut a) {
+                                        a.finding(f);
+                                    }
+                                }
+                            }
+                        }
+                    }
+                    a
+                })
+                .collect()
+        });
+        for a2 in accs {
+            acc.merge(a2);
+        }
+        acc.add("scale probe base texts", bases.len() as u64);
+    }
     // structural complement
     let iso = parser_rs_isomorphism();
     let mut iso_note = json!(null);
@@ -412,6 +498,11 @@ pub fn replay(kind: &str, case: &Value) -> Option<Vec<Finding>> {
                 Some((what, e, o)) => vec![Finding::new("front_end_case", case.clone(), what, e, o)],
                 None => vec![],
             })
+        }
+        "front_end_text" => {
+            let src = case["source"].as_str()?;
+            let mut a = Acc::default();
+            Some(check_any_text(src, &mut a).into_iter().collect())
         }
         "parser_tables" => Some(match parser_rs_isomorphism() {
             Err(e) if !e.starts_with("unreadable:") => vec![Finding::new("parser_tables", case.clone(), format!("parser.rs tables differ: {e}"), json!("isomorphic"), json!(e))],
